@@ -110,6 +110,20 @@ CLAIMED["C02"] = dict(
     technique="Lean 4 proof (refinement of the abstract panic state with a cache invariant) + structural correspondence",
 )
 
+CLAIMED["C11"] = dict(
+    text="Lean theorem C11_import_total: for EVERY file (any list of token lines) the model of bristol_to_garble returns a circuit "
+         "or one of the importer's error values - the `crash` outcome that marks every index operation and subtraction of the Rust "
+         "code is unreachable (header sanity implies all later indices are in range). PARTIAL: the round trip "
+         "(C11_roundtrip_Statement) and the well-formedness of the exported text are not yet proved; they are checked on every "
+         "run: exported tokens identical to the model's, well-formed Bristol (counts, single assignment before use, outputs last "
+         "in order, de-aliasing), re-import evaluated against the original on all/random inputs, and 3000+ mutated or random "
+         "files through the importer with verdict and circuit equal to the model's.",
+    design_ref="DESIGN.md §6 C11",
+    note="trusted: Lean kernel; Model/Bristol.lean (token-level transliteration of convert.rs after repair 2c43f95) tied by exact "
+         "correspondence; tokenisation and decimal parsing are done by the harness with the same usize parser",
+    technique="Lean 4 proof (importer state invariant) + exact correspondence + round-trip oracle",
+)
+
 NOT_YET = "not claimed yet: model/proof for this property is still being built in this session (see DESIGN.md §10 order of work)"
 
 
